@@ -10,6 +10,7 @@ mod craft;
 mod props;
 mod refmodels;
 mod stubs;
+mod zoo;
 
 use crate::core::*;
 
